@@ -128,6 +128,10 @@ def mon_C03(run):
     for kk, vv in (("max_fun_evals", "fe"), ("max_iter", "it"), ("tol_mesh", "mesh"), ("tol_fun", "fun")):
         if kk in msg:
             code = vv
+    if code is None and "output_fcn" in msg:
+        if uo.get("output_fcn") != "STOP_INIT":
+            run.v("C03", "message says the output function stopped the run but none asked to", "msg-false/out", msg)
+        return
     if code is None:
         run.v("C03", "termination message names no stopping condition", "msg-empty", msg)
         return
